@@ -387,6 +387,9 @@ CHECKS["C13"] = {
         {"name": "relayed-socket", "pkg": "cliworld", "run": "^TestC13$",
          "quick": {"shards": 4, "checks": 700, "timeout_s": 500},
          "thorough": {"shards": 16, "checks": 8000, "timeout_s": 3000}},
+        {"name": "concurrent-first-writes", "pkg": "cliworld", "run": "^TestC13FirstWrites$", "race": True,
+         "quick": {"shards": 4, "checks": 12, "timeout_s": 400},
+         "thorough": {"shards": 16, "checks": 150, "timeout_s": 2000}},
         {"name": "reallocation", "pkg": "cliworld", "run": "^TestC13Realloc$",
          "quick": {"shards": 2, "checks": 400, "timeout_s": 300},
          "thorough": {"shards": 8, "checks": 5000, "timeout_s": 1500}},
